@@ -3,6 +3,7 @@ package main
 import (
 	"context"
 	"encoding/json"
+	"errors"
 	"flag"
 	"fmt"
 	"math/rand"
@@ -31,11 +32,21 @@ type memRepo struct {
 	mu    sync.Mutex
 	kv    map[string][]byte
 	onPut func(key string, val []byte)
+	// transient faults of the repository (the environment's): the next Get of failGet fails once; the failPutN-th next
+	// Put of a key below failPutPrefix fails once
+	failGet       string
+	failPutPrefix string
+	failPutN      int
+	faultFired    bool
 }
 
 func (r *memRepo) Get(_ context.Context, key string) ([]byte, error) {
 	r.mu.Lock()
 	defer r.mu.Unlock()
+	if r.failGet != "" && key == r.failGet {
+		r.failGet, r.faultFired = "", true
+		return nil, errors.New("injected: repository read failed")
+	}
 	v, ok := r.kv[key]
 	if !ok {
 		return nil, state.ErrNotExist
@@ -70,6 +81,13 @@ func (r *memRepo) List(_ context.Context, prefix string) ([]state.KeyValue, erro
 
 func (r *memRepo) Put(_ context.Context, key string, val []byte) error {
 	r.mu.Lock()
+	if r.failPutPrefix != "" && strings.HasPrefix(key, r.failPutPrefix) {
+		if r.failPutN--; r.failPutN == 0 {
+			r.failPutPrefix, r.faultFired = "", true
+			r.mu.Unlock()
+			return errors.New("injected: repository write failed")
+		}
+	}
 	r.kv[key] = append([]byte{}, val...)
 	cb := r.onPut
 	r.mu.Unlock()
@@ -212,9 +230,47 @@ func masterHistory(rec *trace.Recorder, rng *rand.Rand, steps, nnodes int, h int
 		case (w != nil && w[0] == "process") || (len(run.pending) > 0 && c < 50):
 			e := run.pending[0]
 			run.pending = run.pending[1:]
-			rec.Emit("Process", trace.F{"t": e.Type.String()})
+			// a transient repository fault while a database-config event is handled: the read of the stored assignment
+			// fails, or the first / the second write of the assignment does
+			fault := "none"
+			if w != nil && len(w) > 1 {
+				fault = w[1]
+			} else if w == nil && e.Type == discovery.DatabaseConfigChanged && rng.Intn(5) == 0 {
+				fault = []string{"read", "put1", "put2"}[rng.Intn(3)]
+			}
+			if fault != "none" && e.Type != discovery.DatabaseConfigChanged {
+				sum.Unresolved = append(sum.Unresolved, fmt.Sprintf("history %d step %d: fault %s on a %s event", h, i, fault, e.Type))
+				return
+			}
+			if fault != "none" {
+				cfg := &models.Database{}
+				_ = json.Unmarshal(e.Value, cfg)
+				repo.mu.Lock()
+				repo.faultFired = false
+				switch fault {
+				case "read":
+					repo.failGet = constants.GetDatabaseAssignPath(cfg.Name)
+				case "put1":
+					repo.failPutPrefix, repo.failPutN = constants.ShardAssignmentPath+"/", 1
+				case "put2":
+					repo.failPutPrefix, repo.failPutN = constants.ShardAssignmentPath+"/", 2
+				}
+				repo.mu.Unlock()
+			}
 			master.VerifProcessEvent(run.mgr, e)
-			script = append(script, "process:"+e.Type.String())
+			repo.mu.Lock()
+			fired := repo.faultFired
+			repo.failGet, repo.failPutPrefix = "", ""
+			repo.mu.Unlock()
+			if fault != "none" && !fired {
+				fault = "none" // the handler never came to the operation that was to fail (e.g. no live node): an ordinary step
+			}
+			if fault == "none" {
+				rec.Emit("Process", trace.F{"t": e.Type.String()})
+			} else {
+				rec.Emit("Process", trace.F{"t": e.Type.String(), "fault": fault})
+			}
+			script = append(script, "process:"+e.Type.String()+":"+fault)
 		case c < 70:
 			n := 1 + rng.Intn(nnodes)
 			key := constants.GetStorageLiveNodePath(strconv.Itoa(n))
